@@ -13,6 +13,10 @@ static const Alphabet alphabets[] = {
 		4, { "0:inf", "-inf:inf", "0:1", "-inf:0" }, 3, { "-1", "0", "1" }, 1 },
 	{ "S0q1", 1, 2, 0, 1, 3, { "-1", "0", "1" }, 2, { "0", "1" }, 3, { "L", "G", "E" },
 		3, { "0:inf", "-inf:inf", "0:1" }, 3, { "-1", "0", "1" }, 1 },
+	{ "S1q", 1, 2, 1, 1, 3, { "-1", "0", "1" }, 2, { "0", "1" }, 3, { "L", "E", "R1" },
+		4, { "0:inf", "-inf:inf", "1:1", "-1:2" }, 2, { "-1", "1" }, 1 },
+	{ "SN1", 1, 2, 1, 1, 7, { "0", "1", "-1", "1/3", "9007199254740993", "@tiny3", E30 }, 3, { "0", "1/3", "9007199254740993" }, 3, { "L", "E", "R1/3" },
+		3, { "0:inf", "-inf:inf", "1/3:" E30 }, 3, { "1", "1/3", "-9007199254740993" }, 1 },
 	{ "S0mk", 1, 2, 1, 1, 3, { "-1", "0", "1" }, 2, { "0", "1" }, 3, { "L", "G", "E" },
 		3, { "0:inf", "-inf:inf", "0:1" }, 2, { "-1", "1" }, 1 },
 	{ "S0q", 1, 2, 0, 2, 3, { "-1", "0", "1" }, 2, { "0", "1" }, 3, { "L", "G", "E" },
@@ -39,6 +43,11 @@ static const Alphabet alphabets[] = {
 		2, { "0:inf", "-inf:inf" }, 2, { "1", "-1" }, 1 },
 };
 static const Alphabet *AL;
+static void qnum (mpq_t q, const char *s)
+{
+	if (!strcmp (s, "@tiny3")) { mpq_set_ui (q, 3, 1); mpq_div_2exp (q, q, 1074); return; }   /* 3 * 2^-1074: a denormal double */
+	q_set_str (q, s);
+}
 /* shape table: cumulative counts per (n,m) */
 typedef struct { int n, m; long base, cnt; } Shape;
 static Shape shapes[32]; static int nshapes; static long total;
@@ -104,19 +113,19 @@ RefLP *lpfam_decode (long idx)
 	mpq_t a, b, z; mpq_init (a); mpq_init (b); mpq_init (z);
 	char nm[16];
 	for (int c = 0; c < n; c++) {
-		int li, ui; q_set_str (z, AL->obj[dobj[c]]);
+		int li, ui; qnum (z, AL->obj[dobj[c]]);
 		parse_bound (AL->bnd[dbnd[c]], a, &li, b, &ui);
 		snprintf (nm, sizeof nm, "x%d", c);
 		ref_add_col (L, z, a, li, b, ui, nm);
 	}
 	for (int i = 0; i < m; i++) {
 		const char *k = AL->kind[dkind[i]];
-		q_set_str (a, AL->rhs[drhs[i]]);
+		qnum (a, AL->rhs[drhs[i]]);
 		mpq_set_ui (b, 0, 1);
 		if (k[0] == 'R') q_set_str (b, k + 1);
 		snprintf (nm, sizeof nm, "c%d", i);
 		ref_add_row (L, k[0], a, b, nm);
-		for (int c = 0; c < n; c++) q_set_str (REF_A (L, i, c), AL->coef[dcoef[i][c]]);
+		for (int c = 0; c < n; c++) qnum (REF_A (L, i, c), AL->coef[dcoef[i][c]]);
 	}
 	mpq_clear (a); mpq_clear (b); mpq_clear (z);
 	return L;
